@@ -137,7 +137,7 @@ package kcp
 // Globals, buffer pool
 // ===================================================================================
 //
-//@ axiom DefaultSnmp != nil && defaultBufferPool != nil
+//@ axiom DefaultSnmp != nil && defaultBufferPool != nil && SystemTimedSched != nil
 //
 //@ func bufferPool.Get
 //@   ensures len(result) == 1500 && cap(result) == 1500 && fresh(result) && off(result) == 0
@@ -250,6 +250,7 @@ package kcp
 //@   ensures @C10 [accepted-mtu-keeps-invariant] result == 0 ==> kcp.wf()
 //@   ensures @C10 [refused-mtu-changes-nothing] result != 0 ==> kcp.mtu == old(kcp.mtu) && kcp.mss == old(kcp.mss) && kcp.buffer == old(kcp.buffer)
 //@   ensures result == 0 || result == 0 - 1
+//@   ensures result == 0 ==> kcp.mtu == mtu
 //@   loop 1 invariant forall j int :: 0 <= j && j < _i ==> len(kcp.snd_queue.at(j).data) <= mss
 //@   loop 2 invariant forall j int :: 0 <= j && j < _i ==> len(kcp.snd_buf.at(j).data) <= mss
 //
@@ -630,10 +631,21 @@ package kcp
 //@ pred (s *UDPSession) imm() = s.kcp != nil && s.chPostProcessing != nil && 0 <= s.headerSize && s.headerSize <= 36
 //@      && (s.fecEncoder != nil ==> s.headerSize == s.fecEncoder.payloadOffset + 2)
 //@      && (typeis(s.block, ptr_aeadCrypt) ==> unboxptr(s.block, aeadCrypt) != nil && unboxptr(s.block, aeadCrypt).aead != nil)
+//@      && s.ov() >= 0
+//@ spec (s *UDPSession) ov() int = typeis(s.block, ptr_aeadCrypt) ? aeadov(unboxptr(s.block, aeadCrypt).aead) : 0
 //@ pred (s *UDPSession) inv() = s.kcp.wf() && (s.fecDecoder != nil ==> s.fecDecoder.wf())
+//@      && s.kcp.mtu + s.headerSize + s.ov() <= 1500
 //@ monitor UDPSession.mu self.inv()
 //
 // Values kept in atomic.Value fields.
+//@ callback atomic:UDPSession.socketWriteError
+//@   requires typeis(v, error)
+//@ callback atomic:UDPSession.socketReadError
+//@   requires typeis(v, error)
+//@ callback atomic:Listener.socketReadError
+//@   requires typeis(v, error)
+//@ func TimedSched.Put trusted
+//@   modifies nothing
 //@ callback atomic:UDPSession.callbackForOOB
 //@   requires typeis(v, OOBCallBackType) && ifaceval(v) != 0
 //
@@ -690,3 +702,53 @@ package kcp
 //@            && sends(Listener.chAccepts, l.chAccepts) == old(sends(Listener.chAccepts, l.chAccepts))
 //@   ensures @C11 [at-most-one-session-created] calls(newUDPSession) <= old(calls(newUDPSession)) + 1
 //@   ensures @C11 [one-accept-per-created-session] sends(Listener.chAccepts, l.chAccepts) - old(sends(Listener.chAccepts, l.chAccepts)) == calls(newUDPSession) - old(calls(newUDPSession))
+//
+// Packets queued for post-processing (C10): a pool buffer with room for the AEAD tag.
+//@ callback chan:UDPSession.chPostProcessing
+//@   requires @C10 [queued-packet-fits-mtu] cap(msg.buffer) == 1500 && len(msg.buffer) + self.ov() <= 1500
+//@   requires len(msg.buffer) >= self.headerSize + 4
+//
+//@ func UDPSession.SetMtu
+//@   requires s.imm()
+//@   modifies everything
+//
+// The session's output callback (runs inside flush, under the session lock).
+//@ func newUDPSession$1
+//@   requires sess != nil && sess.imm() && 0 < size && size <= sess.kcp.mtu && size <= len(buf)
+//@   requires sess.kcp.mtu + sess.headerSize + sess.ov() <= 1500
+//@   modifies nothing
+//
+//@ func UDPSession.GetOOBMaxSize
+//@   requires s.imm()
+//@   modifies nothing
+//@   ensures @C19 s.fecEncoder == nil ==> result == 0
+//@   ensures @C19 s.fecEncoder != nil ==> result == s.kcp.mtu - 4
+//
+//@ func UDPSession.SendOOB
+//@   requires s.imm()
+//@   modifies everything
+//@   callsite chan:UDPSession.chPostProcessing requires @C19 [oob-packet-layout] msg.oob && len(msg.buffer) == s.headerSize + 4 + len(data) && le32(msg.buffer, s.headerSize) == s.kcp.conv
+//@   callsite chan:UDPSession.chPostProcessing requires @C19 [oob-payload-intact] forall j int :: 0 <= j && j < len(data) ==> msg.buffer[s.headerSize + 4 + j] == data[j]
+//@   ensures @C19 [refused-without-fec] s.fecEncoder == nil ==> result != nil && sends(UDPSession.chPostProcessing, s.chPostProcessing) == old(sends(UDPSession.chPostProcessing, s.chPostProcessing))
+//@   ensures @C19 [oversize-refused] s.fecEncoder != nil && 4 + len(data) > old(s.kcp.mtu) ==> result != nil && sends(UDPSession.chPostProcessing, s.chPostProcessing) == old(sends(UDPSession.chPostProcessing, s.chPostProcessing))
+//@   ensures @C19 [at-most-one-packet] sends(UDPSession.chPostProcessing, s.chPostProcessing) <= old(sends(UDPSession.chPostProcessing, s.chPostProcessing)) + 1
+//@   ensures @C19 [stream-untouched] sameheap(KCP, RingBuffer, segmentHeap, fecDecoder, shardHeap, fecEncoder, allmaps)
+//
+//@ func UDPSession.update
+//@   requires s.imm() && !held(s.mu)
+//@   modifies everything
+//
+//@ func UDPSession.WriteBuffers
+//@   requires s.imm() && !held(s.mu)
+//@   modifies everything
+//@   callsite KCP.Send requires @C04 [write-admitted-only-below-send-window] waitsnd < s.kcp.snd_wnd && held(s.mu)
+//@   loop 0 invariant s.imm() && !held(s.mu) && n >= 0
+//@   loop 1 invariant s.imm() && !held(s.mu) && n >= 0
+//@   loop 2 invariant s.kcp.wf() && (s.fecDecoder != nil ==> s.fecDecoder.wf()) && s.kcp.mtu + s.headerSize + s.ov() <= 1500 && held(s.mu) && n >= 0 && waitsnd < s.kcp.snd_wnd
+//@   loop 3 invariant s.kcp.wf() && (s.fecDecoder != nil ==> s.fecDecoder.wf()) && s.kcp.mtu + s.headerSize + s.ov() <= 1500 && held(s.mu) && n >= 0 && waitsnd < s.kcp.snd_wnd
+//
+//@ func UDPSession.Read
+//@   requires s.imm() && !held(s.mu)
+//@   modifies everything
+//@   loop 0 invariant s.imm() && !held(s.mu)
+//@   loop 1 invariant s.imm() && !held(s.mu)
